@@ -366,10 +366,16 @@ def gen_cases(rng, tier):
     cases = []
     for k in ['huge-dry', 'huge-delete', 'huge-equal', 'huge-dry-stats']:
         cases.append(cl.gen_huge_case(rng, k[5:]))
-    n = {'tree': 260, 'args': 300, 'spec': 260, 'doer': 50, 'remote': 60, 'pty': 20, 'huge': 6} if q else \
-        {'tree': 4000, 'args': 5000, 'spec': 4000, 'doer': 500, 'remote': 700, 'pty': 250, 'huge': 40}
+    n = {'tree': 500, 'args': 600, 'spec': 500, 'doer': 80, 'remote': 110, 'pty': 36, 'huge': 8} if q else \
+        {'tree': 9000, 'args': 12000, 'spec': 9000, 'doer': 1000, 'remote': 1500, 'pty': 500, 'huge': 60}
     for text in cl.SPEC_HANDMADE:
         cases.append(cl.gen_spec_case(rng, text))
+    key = b'00112233445566778899aabbccddeeff\n'
+    for argv, stdin, listen in ([[b'--doer', b'--port', b'@PORT@'], key, True], [[b'--doer'], key, False], [[b'--doer'], b'', False],
+                                [[b'--doer', b'--port', b'0'], key, False], [[b'--doer', b'--log-filter', b'trace'], key, False],
+                                [[b'--doer', b'--dump-memory-usage'], key, False], [[b'--doer', b'--port', b'70000'], key, False]):
+        cases.append({'family': 'doer', 'kind': 'direct', 'setup': [], 'argv': [cl.hx(a) for a in argv], 'stdin': cl.hx(stdin), 'place': 'LL',
+                      'listen': listen, 'timeout': 20})
     for kind in ['names', 'times', 'special', 'roots', 'deep', 'mixed', 'longnames']:
         for _ in range(6):
             cases.append(cl.gen_tree_case(rng, kind))
